@@ -242,6 +242,8 @@ def check_property(prop, tier='quick', seed=0, write_lock=False, only=None):
     seen = set(new_lock) | {v[0] for v in violations} | {n['obligation'] for n in not_covered}
     if not only:
         for oid in sorted(locked):
+            if oid.endswith('::no-exception'):
+                continue      # emitted only on paths that raise: absent when no such path is explored
             if oid not in seen:
                 unit_uid = oid.split('::')[0]
                 if unit_uid in by_uid or tier == 'thorough' or not any(u.uid == unit_uid for u in units):
